@@ -193,6 +193,44 @@ def check_array(col, kind, st, T, elems, dask_too=False):
     col.sample(case)
 
 
+def long_elems(kind, floats):
+    pool = [e for e in pools(kind, floats) if e is not None]
+    el = [pool[i % len(pool)] for i in range(20)]
+    for i in (1, 7, 8, 10, 15, 18):
+        el[i] = None
+    return el
+
+
+def check_long(col, kind, st, T):
+    """20-element arrays: the validity bitmap spans three bytes; slices starting on its byte boundaries"""
+    el = long_elems(kind, st.startswith("float"))
+    check_array(col, kind, st, T, el, dask_too=False)
+    for off, end in ((8, None), (16, None), (7, 17), (8, 16)):
+        sub = el[off:end]
+        case = {"kind": kind, "subtype": st, "T": list(T), "elems": [jelem(e) for e in sub], "sliced_from_long": [off, end]}
+        arr = L.make_array(kind, el, st, T)[off:end]
+        model = [tfe(kind, e, T) for e in sub]
+        col.count("evaluations")
+        col.count("nontrivial")
+        eb = np.array([exp_bounds(kind, e) for e in model], dtype=float).reshape(len(model), 4)
+        et = exp_total(kind, model)
+        try:
+            if not eqf(arr.bounds, eb) or not eqf(arr.total_bounds, et) or not eqf(arr.total_bounds_x, (et[0], et[2])) \
+                    or not eqf(arr.total_bounds_y, (et[1], et[3])):
+                col.violation(f"{kind}.bounds.long_slice", case, f"slice [{off}:{end}] of a 20-element array: bounds "
+                              f"{np.asarray(arr.bounds).tolist()[:3]}.. total {arr.total_bounds} expected {eb.tolist()[:3]}.. {et}", subtype=st)
+            a2 = arr.copy()
+            stb = tuple(a2.sindex.total_bounds)
+            partial = np.isnan(eb).any(axis=1) & ~np.isnan(eb).all(axis=1)
+            if not partial.any() and not eqf(stb, et):
+                col.violation(f"{kind}.sindex_total_bounds", case, f"sindex.total_bounds={stb} expected={et}")
+            # bounds must not change once a spatial index has been built on the object
+            if not eqf(a2.bounds, eb) or not eqf(a2.total_bounds, et):
+                col.violation(f"{kind}.bounds.after_sindex", case, "bounds / total_bounds changed after build_sindex")
+        except Exception as ex:
+            col.violation(f"{kind}.bounds.raises", case, f"{type(ex).__name__}: {ex}", subtype=st)
+
+
 def plan(ctx):
     units = []
     nmax = 3
@@ -224,6 +262,8 @@ def run(ctx):
     def work(col, i):
         j = (i + rot) % len(units)
         kind, st, seqs = units[j]
+        if seqs and seqs[0] == ():
+            check_long(col, kind, st, L.transform_for(st, ctx.seed, salt=j))
         pool = pools(kind, st.startswith("float"))
         T = L.transform_for(st, ctx.seed, salt=j)
         for s in seqs:
